@@ -28,6 +28,10 @@ CHECKS = {
    text="Complete enumeration on the implementation: storage words x every (offset, width) in ([0,34] + 4 large boundaries)^2 x 7 slot numbers, and every string length 0..130 x 4 content patterns x slots plus invalid head words, journaled by generated programs run directly, statically, through DELEGATECALL/CALLCODE (code account holding complemented words) and right after an SSTORE; the recorded bytes, read back by name and by slot, must equal a reference Solidity storage-layout decoder applied to the executing contract's storage at the journal step; invalid operands/encodings must fail the frame and record nothing.",
    tech="bounded exhaustive enumeration of inputs executed on the real code, compared with a reference decoder (model in the implementation language)",
    note="Strings above 130 bytes and words outside the alphabet are not covered."),
+ "C12": dict(cat="model_checking", ref="DESIGN.md §4 C12",
+   text="Bounded exhaustive exploration on the implementation: every base program of length <= L over a 28-macro interacting alphabet, one journal instruction (13 well-formed and 20 malformed operand sets over the 8 opcodes) inserted at every position, on all 13 fork configurations, in normal and static frames; the program and its pop-variant are executed with full-data debug tracers and every subsequent event (stack, memory, pc, return data, refund), logs, state delta and results must be equal with gas shifted by one constant non-zero fee; malformed operands must halt the frame with all gas consumed and no effects.",
+   tech="stateless bounded-exhaustive enumeration of program pairs executed on the real code, differential trace comparison (the pop-variant is the reference)",
+   note="Well-formedness is re-evaluated in the live state at the journal step, so base programs that overwrite the journaled head word are judged as malformed cases."),
 }
 
 NOT_YET = {}
